@@ -1,4 +1,5 @@
 import PolyVerif.Lemmas.Rebase
+import PolyVerif.Lemmas.JsonText
 /-
 Helper lemmas for Props/C16, second part: the whole listing, the map it denotes, export/import.
 -/
@@ -249,5 +250,36 @@ theorem importJ_exportJ
     importJ (exportJ m) = some (sortedEntries {} m) := by
   simp only [exportJ, importJ]
   exact entriesOfJ_map hnd _
+
+/-! ### the text layer -/
+
+theorem map_ofNat_toNat (s : Str) : (s.map Char.toNat).map Char.ofNat = s := by
+  induction s with
+  | nil => rfl
+  | cons c cs ih => simp only [List.map_cons, Char.ofNat_toNat, ih]
+
+theorem map_comp_ofNat_toNat (s : Str) : List.map (Char.ofNat ∘ Char.toNat) s = s := by
+  rw [← List.map_map]; exact map_ofNat_toNat s
+
+mutual
+theorem ofBase_toBase : ∀ v : JVal, ofBase (toBase v) = some v
+  | .null => rfl
+  | .str s => by simp [toBase, ofBase, map_comp_ofNat_toNat]
+  | .arr items => by simp [toBase, ofBase, ofBaseList_toBaseList items]
+  | .obj fields => by simp [toBase, ofBase, ofBaseFields_toBaseFields fields]
+theorem ofBaseList_toBaseList : ∀ l : List JVal, ofBaseList (toBaseList l) = some l
+  | [] => rfl
+  | v :: r => by simp [toBaseList, ofBaseList, ofBase_toBase v, ofBaseList_toBaseList r]
+theorem ofBaseFields_toBaseFields : ∀ l : List (Str × JVal), ofBaseFields (toBaseFields l) = some l
+  | [] => rfl
+  | (k, v) :: r => by
+    simp [toBaseFields, ofBaseFields, ofBase_toBase v, ofBaseFields_toBaseFields r, map_comp_ofNat_toNat]
+end
+
+theorem importText_exportText
+    (hnd : [kName, kIsoschizomers, kRecognitionSequence, kMethylationSite, kMicroOrganism, kSource,
+      kCommercialAvailability, kReferences].Nodup) (m : List (Str × Enzyme)) :
+    importText (exportText m) = some (sortedEntries {} m) := by
+  simp only [importText, exportText, JsonText.parse_print, ofBase_toBase, importJ_exportJ hnd m]
 
 end PolyVerif.Rebase
